@@ -292,6 +292,9 @@ def run(ctx: Ctx) -> None:
     ctx.attempt(rule_r2, ctx)
     ctx.attempt(rule_r1, ctx)
     ctx.attempt(rule_r5_concrete, ctx)
+    from . import c12text
+
+    c12text.run(ctx)
     ctx.assume("fractions.Fraction arithmetic is exact (trusted stdlib)")
     ctx.assume("assert statements in Constant.__init__ are beliefs, not guards (python -O removes them)")
     ctx.analysed["modules"] = [ATTR, PRIM]
